@@ -2,6 +2,9 @@
   C14 — helper lemmas for the property theorems in `Verif.Props.C14`.
 -/
 import Verif.Model.C14
+import Mathlib.Algebra.Order.Field.Rat
+import Mathlib.Tactic.Linarith
+import Mathlib.Tactic.Ring
 
 namespace Verif.C14
 
@@ -802,5 +805,523 @@ theorem run_append (r : Bool) (F : Fit) (as bs : List Action) :
   induction as generalizing F with
   | nil => rfl
   | cons a as ih => simp [run, exec, ih]
+
+/-! ### the residual the fit evaluates -/
+
+/-- every dataset of every condition is a dataset of the model, and the condition's local vector (computed from the
+    group's first dataset) is the dataset's own direct reading -/
+theorem mem_generateConditions (m : ModelData) (uniq : List String) (hinj : CondInj m)
+    (hin : ∀ d ∈ m.data, NamesIn d.trans uniq) (cd : Condition × List Data) (hcd : cd ∈ generateConditions m uniq)
+    (d : Data) (hd : d ∈ cd.2) :
+    d ∈ m.data ∧ ∀ g, getLocalParams cd.1 g = localDirect d.trans uniq g := by
+  unfold generateConditions at hcd
+  simp only [List.mem_filterMap] at hcd
+  obtain ⟨grp, hgrp, h⟩ := hcd
+  cases grp with
+  | nil => simp at h
+  | cons r rest =>
+    simp only [Option.some.injEq] at h
+    subst h
+    obtain ⟨hr, hdm, hs⟩ := mem_groups m _ r d hgrp (List.mem_cons_self) hd
+    refine ⟨hdm, fun g => ?_⟩
+    show getLocalParams (mkCondition r.trans uniq) g = _
+    rw [mkCondition_congr _ _ uniq (hinj r hr d hdm hs), getLocalParams_mkCondition _ _ _ (hin d hdm)]
+
+theorem mem_residual (f : ModelFn) (m : ModelData) (uniq : List String) (hinj : CondInj m)
+    (hin : ∀ d ∈ m.data, NamesIn d.trans uniq) (g : List Rat) (r : Rat) (hr : r ∈ m.residual f uniq g) :
+    ∃ d ∈ m.data, r ∈ dataResidual f (localDirect d.trans uniq g) d := by
+  unfold ModelData.residual residualOf at hr
+  simp only [List.mem_flatMap] at hr
+  obtain ⟨cd, hcd, d, hd, hr⟩ := hr
+  obtain ⟨hdm, hl⟩ := mem_generateConditions m uniq hinj hin cd hcd d hd
+  exact ⟨d, hdm, by rw [← hl g]; exact hr⟩
+
+/-- dataset `d` is noise-free data of the model function `f` at the local parameter vector `p` -/
+def NoiseFree (f : ModelFn) (p : List Rat) (d : Data) : Prop :=
+  d.y.map bitsToRat = d.x.map fun x => f p (bitsToRat x)
+
+theorem zipWith_residual_zero (f : ModelFn) (p : List Rat) (xs ys : List Nat)
+    (h : ys.map bitsToRat = xs.map fun x => f p (bitsToRat x)) :
+    ∀ r ∈ List.zipWith (fun x y => bitsToRat y - f p (bitsToRat x)) xs ys, r = 0 := by
+  induction xs generalizing ys with
+  | nil => intro r hr; simp at hr
+  | cons x xs ih =>
+    cases ys with
+    | nil => intro r hr; simp at hr
+    | cons y ys =>
+      simp only [List.map_cons, List.cons.injEq] at h
+      intro r hr
+      simp only [List.zipWith_cons_cons, List.mem_cons] at hr
+      rcases hr with rfl | hr
+      · rw [h.1]; exact sub_self _
+      · exact ih ys h.2 r hr
+
+theorem dataResidual_zero (f : ModelFn) (p : List Rat) (d : Data) (h : NoiseFree f p d) :
+    ∀ r ∈ dataResidual f p d, r = 0 := zipWith_residual_zero f p d.x d.y h
+
+theorem mem_zipWith_zip {α β γ} (fn : α → β → γ) (l1 : List α) (l2 : List β) (c : γ)
+    (h : c ∈ List.zipWith fn l1 l2) : ∃ ab ∈ l1.zip l2, c = fn ab.1 ab.2 := by
+  induction l1 generalizing l2 with
+  | nil => simp at h
+  | cons a as ih =>
+    cases l2 with
+    | nil => simp at h
+    | cons b bs =>
+      simp only [List.zipWith_cons_cons, List.mem_cons] at h
+      rcases h with rfl | h
+      · exact ⟨(a, b), by simp, rfl⟩
+      · obtain ⟨ab, hab, e⟩ := ih bs h
+        exact ⟨ab, by simp [hab], e⟩
+
+theorem mem_residualAt (fs : List ModelFn) (F : Fit) (g : List Rat) (r : Rat) (h : r ∈ F.residualAt fs g) :
+    ∃ mf ∈ F.models.zip fs, r ∈ mf.1.residual mf.2 (F.table.map (·.1)) g := by
+  unfold Fit.residualAt at h
+  simp only [List.mem_flatten] at h
+  obtain ⟨l, hl, hr⟩ := h
+  obtain ⟨mf, hmf, e⟩ := mem_zipWith_zip _ _ _ _ hl
+  exact ⟨mf, hmf, e ▸ hr⟩
+
+/-! ### sums of squares -/
+
+theorem sumSq_nonneg (l : List Rat) : 0 ≤ sumSq l := by
+  unfold sumSq
+  induction l with
+  | nil => simp
+  | cons a as ih =>
+    simp only [List.map_cons, List.sum_cons]
+    have := mul_self_nonneg a
+    linarith
+
+theorem sumSq_eq_zero_iff (l : List Rat) : sumSq l = 0 ↔ ∀ r ∈ l, r = 0 := by
+  unfold sumSq
+  induction l with
+  | nil => simp
+  | cons a as ih =>
+    simp only [List.map_cons, List.sum_cons, List.mem_cons, forall_eq_or_imp]
+    have h1 := mul_self_nonneg a
+    have h2 : 0 ≤ (as.map fun r => r * r).sum := sumSq_nonneg as
+    constructor
+    · intro h
+      have ha : a * a = 0 := by linarith
+      have hs : (as.map fun r => r * r).sum = 0 := by linarith
+      exact ⟨mul_self_eq_zero.mp ha, ih.mp hs⟩
+    · rintro ⟨rfl, h⟩
+      rw [ih.mpr h]; simp
+
+/-! ### the fit and the residual -/
+
+theorem writeBack_maskSel (m : List Bool) (v : List Rat) : writeBack m (maskSel m v) v = v := by
+  induction m generalizing v with
+  | nil => cases v <;> rfl
+  | cons b ms ih =>
+    cases v with
+    | nil => cases b <;> rfl
+    | cons a as =>
+      cases b
+      · simp only [maskSel, writeBack, ih]
+      · simp only [maskSel, writeBack, ih]
+
+theorem writeBack_length (m : List Bool) (x p : List Rat) : (writeBack m x p).length = p.length := by
+  induction m generalizing x p with
+  | nil => cases x <;> cases p <;> rfl
+  | cons b ms ih =>
+    cases p with
+    | nil => cases b <;> cases x <;> rfl
+    | cons a as =>
+      cases b
+      · simp only [writeBack, List.length_cons, ih]
+      · cases x with
+        | nil => rfl
+        | cons y ys => simp only [writeBack, List.length_cons, ih]
+
+theorem setValues_values (T : List (String × Param)) (v : List Rat) (h : v.length = T.length) :
+    (setValues T v).map (·.2.value) = v := by
+  induction T generalizing v with
+  | nil => cases v with
+    | nil => rfl
+    | cons a as => simp at h
+  | cons e es ih =>
+    cases v with
+    | nil => simp at h
+    | cons a as =>
+      simp only [List.length_cons, Nat.add_right_cancel_iff] at h
+      have := ih as h
+      simp only [setValues] at this ⊢
+      simp [this]
+
+theorem tableAfter_values (T : List (String × Param)) (x : List Rat) :
+    (tableAfter T x).map (·.2.value) = writeBack (T.map (!·.2.fixed)) x (T.map (·.2.value)) := by
+  unfold tableAfter
+  apply setValues_values
+  rw [writeBack_length]; simp
+
+theorem tableAfter_start (T : List (String × Param)) :
+    tableAfter T (maskSel (T.map (!·.2.fixed)) (T.map (·.2.value))) = T := by
+  unfold tableAfter
+  rw [writeBack_maskSel]
+  exact setValues_self T
+
+/-- the objective at the start point the fit hands over is the residual at the table values -/
+theorem objective_start (fs : List ModelFn) (G : Fit) :
+    G.objective fs (maskSel G.fitted G.values) = G.residualAt fs G.values := by
+  unfold Fit.objective
+  rw [writeBack_maskSel]
+
+
+/-! ### generating values given by NAME -/
+
+/-- what a dataset reads when the parameters are given by NAME (`gen`): the independent reading of "a shared name is
+    one value every dataset sees, a renamed parameter has its own, a constant is itself" -/
+def localByName (tr : List (String × Target)) (gen : String → Rat) : List Rat :=
+  tr.map fun e => match e.2 with
+    | .name s => gen s
+    | .const v _ => v
+
+theorem getD_idxOf_of_gen (T : List (String × Param)) (gen : String → Rat) (hgen : ∀ e ∈ T, e.2.value = gen e.1)
+    (s : String) (hs : s ∈ T.map (·.1)) :
+    (T.map (·.2.value)).getD ((T.map (·.1)).idxOf s) 0 = gen s := by
+  induction T with
+  | nil => cases hs
+  | cons e es ih =>
+    obtain ⟨k, p⟩ := e
+    simp only [List.map_cons, List.idxOf_cons]
+    by_cases e' : s = k
+    · subst e'
+      simp only [beq_self_eq_true, cond_true, List.getD_cons_zero]
+      exact hgen (s, p) List.mem_cons_self
+    · have h2 : (k == s) = false := by simp [Ne.symm e']
+      rw [h2]
+      simp only [cond_false, List.getD_cons_succ]
+      exact ih (fun e he => hgen e (List.mem_cons_of_mem _ he)) (by simpa [e'] using hs)
+
+theorem localDirect_of_table (T : List (String × Param)) (gen : String → Rat)
+    (hgen : ∀ e ∈ T, e.2.value = gen e.1) (tr : List (String × Target)) (hin : NamesIn tr (T.map (·.1))) :
+    localDirect tr (T.map (·.1)) (T.map (·.2.value)) = localByName tr gen := by
+  unfold localDirect localByName
+  apply List.map_congr_left
+  intro e he
+  cases ht : e.2 with
+  | const v r => rfl
+  | name s => exact getD_idxOf_of_gen T gen hgen s (hin e he s ht)
+
+theorem mem_of_lookup_eq_some (T : List (String × Param)) (n : String) (p : Param) (h : T.lookup n = some p) :
+    (n, p) ∈ T := by
+  induction T with
+  | nil => cases h
+  | cons e es ih =>
+    obtain ⟨k, q⟩ := e
+    simp only [List.lookup_cons] at h
+    by_cases e' : n = k
+    · subst e'
+      simp only [beq_self_eq_true, Option.some.injEq] at h
+      subst h; exact List.mem_cons_self
+    · have : (n == k) = false := by simp [e']
+      rw [this] at h
+      exact List.mem_cons_of_mem _ (ih h)
+
+/-- `_set_params` keeps the generating values when every key of the new table was a key of the old one -/
+theorem setParams_gen (old : List (String × Param)) (names : List String) (defs : List (Option Param))
+    (gen : String → Rat) (hgen : ∀ e ∈ old, e.2.value = gen e.1) (hsub : ∀ n ∈ names, n ∈ old.map (·.1)) :
+    ∀ e ∈ setParams old names defs, e.2.value = gen e.1 := by
+  intro e he
+  unfold setParams at he
+  simp only [List.mem_map] at he
+  obtain ⟨nd, hnd, rfl⟩ := he
+  have hn : nd.1 ∈ names := (List.of_mem_zip hnd).1
+  have hs := lookup_isSome_of_mem_keys old nd.1 (hsub _ hn)
+  cases hl : old.lookup nd.1 with
+  | none => simp [hl] at hs
+  | some p =>
+    simp only [Option.getD_some]
+    exact hgen _ (mem_of_lookup_eq_some old nd.1 p hl)
+
+
+/-! ### the sum of squares is a sum over all datasets -/
+
+theorem sumSq_append (l1 l2 : List Rat) : sumSq (l1 ++ l2) = sumSq l1 + sumSq l2 := by
+  simp [sumSq, List.map_append, List.sum_append]
+
+theorem sumSq_flatMap {α} (l : List α) (φ : α → List Rat) :
+    sumSq (l.flatMap φ) = (l.map fun a => sumSq (φ a)).sum := by
+  induction l with
+  | nil => simp [sumSq]
+  | cons a as ih => simp only [List.flatMap_cons, sumSq_append, ih, List.map_cons, List.sum_cons]
+
+theorem sumSq_flatten (l : List (List Rat)) : sumSq l.flatten = (l.map sumSq).sum := by
+  induction l with
+  | nil => simp [sumSq]
+  | cons a as ih => simp only [List.flatten_cons, sumSq_append, ih, List.map_cons, List.sum_cons]
+
+theorem sum_map_zero {α} (l : List α) : (l.map fun _ => (0 : Rat)).sum = 0 := by
+  induction l with
+  | nil => rfl
+  | cons a as ih => simp only [List.map_cons, List.sum_cons, ih]; simp
+
+theorem sum_map_add' {α} (l : List α) (f g : α → Rat) :
+    (l.map fun a => f a + g a).sum = (l.map f).sum + (l.map g).sum := by
+  induction l with
+  | nil => simp
+  | cons a as ih => simp only [List.map_cons, List.sum_cons, ih]; ring
+
+theorem sum_range_ite (n k : Nat) (c : Rat) (hk : k < n) :
+    ((List.range n).map fun ci => if k = ci then c else 0).sum = c := by
+  induction n with
+  | zero => omega
+  | succ n ih =>
+    rw [List.range_succ, List.map_append, List.sum_append]
+    by_cases h : k = n
+    · subst h
+      have : ((List.range k).map fun ci => if k = ci then c else 0) = (List.range k).map fun _ => (0 : Rat) := by
+        apply List.map_congr_left
+        intro ci hci
+        have := List.mem_range.mp hci
+        simp [show k ≠ ci by omega]
+      rw [this, sum_map_zero]; simp
+    · rw [ih (by omega)]; simp [h]
+
+/-- splitting a list by a key with values below `n` and summing the classes one after the other is summing the list -/
+theorem sum_by_key {α} (l : List α) (k : α → Nat) (n : Nat) (h : α → Rat) (hk : ∀ a ∈ l, k a < n) :
+    ((List.range n).map fun ci => ((l.filter fun a => k a == ci).map h).sum).sum = (l.map h).sum := by
+  induction l with
+  | nil => simp only [List.filter_nil, List.map_nil, List.sum_nil]; exact sum_map_zero _
+  | cons a as ih =>
+    have e : (fun ci => (((a :: as).filter fun a' => k a' == ci).map h).sum) =
+        fun ci => (if k a = ci then h a else 0) + ((as.filter fun a' => k a' == ci).map h).sum := by
+      funext ci
+      by_cases hc : k a = ci
+      · simp [List.filter_cons, hc]
+      · simp [List.filter_cons, hc]
+    rw [e, sum_map_add', sum_range_ite n (k a) (h a) (hk a List.mem_cons_self),
+      ih (fun a' ha' => hk a' (List.mem_cons_of_mem _ ha'))]
+    simp
+
+/-- the sum of squares of the blocks of one condition group as the code evaluates them (local vector of the FIRST
+    dataset for all) -/
+def groupCost (f : ModelFn) (uniq : List String) (g : List Rat) : List Data → Rat
+  | [] => 0
+  | r :: rest => ((r :: rest).map fun d => sumSq (dataResidual f (getLocalParams (mkCondition r.trans uniq) g) d)).sum
+
+theorem sumSq_residualOf_filterMap (f : ModelFn) (uniq : List String) (g : List Rat) (gs : List (List Data)) :
+    sumSq (residualOf (gs.filterMap fun grp => match grp with
+      | [] => none
+      | r :: _ => some (mkCondition r.trans uniq, grp)) f g) = (gs.map (groupCost f uniq g)).sum := by
+  induction gs with
+  | nil => simp [residualOf, sumSq]
+  | cons grp gs ih =>
+    cases grp with
+    | nil =>
+      simp only [List.filterMap_cons, List.map_cons, List.sum_cons, groupCost, zero_add]
+      exact ih
+    | cons r rest =>
+      simp only [List.filterMap_cons, List.map_cons, List.sum_cons]
+      unfold residualOf at ih ⊢
+      rw [List.flatMap_cons, sumSq_append, ih, sumSq_flatMap]
+      rfl
+
+theorem zipWith_eq_map_zip' {α β γ} (fn : α → β → γ) (l1 : List α) (l2 : List β) :
+    List.zipWith fn l1 l2 = (l1.zip l2).map fun p => fn p.1 p.2 := by
+  induction l1 generalizing l2 with
+  | nil => simp
+  | cons a as ih =>
+    cases l2 with
+    | nil => simp
+    | cons b bs => simp only [List.zipWith_cons_cons, List.zip_cons_cons, List.map_cons, ih]
+
+
+/-! ### the Jacobian scatter as a sum over all paths -/
+
+theorem getD_set_eq' (r : List Rat) (i j : Nat) (v : Rat) (hj : j < r.length) :
+    (r.set i v).getD j 0 = if i = j then v else r.getD j 0 := by
+  by_cases h : i = j
+  · subst h; simp [List.getD_eq_getElem?_getD, hj]
+  · simp [List.getD_eq_getElem?_getD, List.getElem?_set_ne h, h]
+
+/-- subtracting a list of (column, value) pairs from a row one after the other: every column ends with its start value
+    minus the sum of ALL values addressed to it -/
+theorem foldl_subAt_getD (pairs : List (Nat × Rat)) (r : List Rat) (j : Nat) (hj : j < r.length) :
+    (pairs.foldl (fun r iv => r.set iv.1 (r.getD iv.1 0 - iv.2)) r).getD j 0 =
+      r.getD j 0 - ((pairs.filter fun iv => iv.1 = j).map (·.2)).sum := by
+  induction pairs generalizing r with
+  | nil => simp
+  | cons iv ps ih =>
+    simp only [List.foldl_cons]
+    rw [ih _ (by simpa using hj), getD_set_eq' _ _ _ _ hj]
+    by_cases h : iv.1 = j
+    · simp only [h, ↓reduceIte, List.filter_cons, decide_true, List.map_cons, List.sum_cons]
+      ring
+    · simp only [h, ↓reduceIte, List.filter_cons, decide_false]
+      simp
+
+/-- the (column, value) pairs of the scatter, read off the transformations directly: one pair per model parameter
+    that is mapped to a NAME — (index of the name in the table, local sensitivity of that model parameter) -/
+def pathPairs (tr : List (String × Target)) (uniq : List String) (sens : List Rat) (n0 : Nat) : List (Nat × Rat) :=
+  (tr.zipIdx n0).filterMap fun ek => ek.1.2.name?.map fun s => (uniq.idxOf s, sens.getD ek.2 0)
+
+theorem scatter_pairs_aux (tr : List (String × Target)) (uniq : List String) (sens : List Rat) (n0 : Nat) :
+    List.zipWith (fun i sj => (i, sj)) ((tr.filterMap (·.2.name?)).map uniq.idxOf)
+      (((((tr.map (·.2)).zipIdx n0).filter fun ti => ti.1.name?.isSome).map (·.2)).map fun j => sens.getD j 0)
+      = pathPairs tr uniq sens n0 := by
+  induction tr generalizing n0 with
+  | nil => rfl
+  | cons e es ih =>
+    have hn : ∀ s, (Target.name s).name? = some s := fun _ => rfl
+    have hc : ∀ v r, (Target.const v r).name? = none := fun _ _ => rfl
+    unfold pathPairs at ih ⊢
+    cases ht : e.2 with
+    | name s =>
+      simp only [List.map_cons, ht, List.zipIdx_cons, hn, Option.isSome_some,
+        List.filter_cons_of_pos, List.filterMap_cons, List.zipWith_cons_cons, Option.map_some]
+      rw [ih (n0 + 1)]
+    | const v r =>
+      simp only [List.map_cons, ht, List.zipIdx_cons, hc, Option.isSome_none,
+        Bool.false_eq_true, not_false_eq_true, List.filter_cons_of_neg, List.filterMap_cons, Option.map_none]
+      rw [ih (n0 + 1)]
+
+theorem scatterRowSum_eq_fold (tr : List (String × Target)) (uniq : List String) (h : NamesIn tr uniq)
+    (row sens : List Rat) :
+    scatterRowSum (mkCondition tr uniq) row sens =
+      (pathPairs tr uniq sens 0).foldl (fun r iv => r.set iv.1 (r.getD iv.1 0 - iv.2)) row := by
+  unfold scatterRowSum
+  have hE : (mkCondition tr uniq).pExternal =
+      (((tr.map (·.2)).zipIdx.filter fun ti => ti.1.name?.isSome).map (·.2)) := rfl
+  simp only [pIndices_eq _ _ h, hE]
+  rw [scatter_pairs_aux tr uniq sens 0]
+
+theorem pathPairs_column_sum (l : List ((String × Target) × Nat)) (uniq : List String) (sens : List Rat)
+    (h : ∀ ek ∈ l, ∀ s, ek.1.2 = .name s → s ∈ uniq) (n : String) :
+    (((l.filterMap fun ek => ek.1.2.name?.map fun s => (uniq.idxOf s, sens.getD ek.2 0)).filter
+        fun iv => iv.1 = uniq.idxOf n).map (·.2)).sum =
+      ((l.filter fun ek => ek.1.2 = .name n).map fun ek => sens.getD ek.2 0).sum := by
+  induction l with
+  | nil => rfl
+  | cons ek l ih =>
+    have ih' := ih (fun ek' he' => h ek' (List.mem_cons_of_mem _ he'))
+    cases ht : ek.1.2 with
+    | name s =>
+      have hs : s ∈ uniq := h ek List.mem_cons_self s ht
+      have hn : (Target.name s).name? = some s := rfl
+      simp only [List.filterMap_cons, ht, hn, Option.map_some, List.filter_cons]
+      by_cases e : s = n
+      · subst e
+        simp only [decide_true, ↓reduceIte, List.map_cons, List.sum_cons, ih']
+      · have h1 : ¬ (uniq.idxOf s = uniq.idxOf n) := fun hh => e (idxOf_inj_of_mem uniq s n hs hh)
+        have h2 : ¬ (Target.name s = Target.name n) := fun hh => e (by injection hh)
+        simp only [h1, h2, decide_false, Bool.false_eq_true, ↓reduceIte, ih']
+    | const v r =>
+      have hc : (Target.const v r).name? = none := rfl
+      have h2 : ¬ (Target.const v r = Target.name n) := fun hh => by cases hh
+      simp only [List.filterMap_cons, ht, hc, Option.map_none, List.filter_cons, h2, decide_false,
+        Bool.false_eq_true, ↓reduceIte, ih']
+
+theorem mem_generateConditions_cond (m : ModelData) (uniq : List String) (hinj : CondInj m)
+    (cd : Condition × List Data) (hcd : cd ∈ generateConditions m uniq) (d : Data) (hd : d ∈ cd.2) :
+    d ∈ m.data ∧ cd.1 = mkCondition d.trans uniq := by
+  unfold generateConditions at hcd
+  simp only [List.mem_filterMap] at hcd
+  obtain ⟨grp, hgrp, h⟩ := hcd
+  cases grp with
+  | nil => simp at h
+  | cons r rest =>
+    simp only [Option.some.injEq] at h
+    subst h
+    obtain ⟨hr, hdm, hs⟩ := mem_groups m _ r d hgrp (List.mem_cons_self) hd
+    exact ⟨hdm, mkCondition_congr _ _ uniq (hinj r hr d hdm hs)⟩
+
+theorem mem_model_jacobian (J : SensFn) (m : ModelData) (uniq : List String) (hinj : CondInj m)
+    (hin : ∀ d ∈ m.data, NamesIn d.trans uniq) (g : List Rat) (row : List Rat) (h : row ∈ m.jacobian J uniq g) :
+    ∃ d ∈ m.data, ∃ x ∈ d.x, row = scatterRowSum (mkCondition d.trans uniq) (List.replicate uniq.length 0)
+      (J (localDirect d.trans uniq g) (bitsToRat x)) := by
+  unfold ModelData.jacobian jacobianOf at h
+  simp only [List.mem_flatMap] at h
+  obtain ⟨cd, hcd, d, hd, hrow⟩ := h
+  obtain ⟨hdm, hc⟩ := mem_generateConditions_cond m uniq hinj cd hcd d hd
+  unfold dataJacobian at hrow
+  simp only [List.mem_map] at hrow
+  obtain ⟨x, hx, rfl⟩ := hrow
+  refine ⟨d, hdm, x, hx, ?_⟩
+  rw [hc, getLocalParams_mkCondition _ _ _ (hin d hdm)]
+
+
+theorem dirty_withData (F : Fit) (pre post : List ModelData) (m : ModelData) (d : Data) :
+    Fit.dirty { F with models := withData pre m post d } = true := by
+  simp [Fit.dirty, withData]
+
+
+/-! ### the length of the residual vector -/
+
+theorem nsum_map_zero {α} (l : List α) : (l.map fun _ => (0 : Nat)).sum = 0 := by
+  induction l with
+  | nil => rfl
+  | cons a as ih => simp only [List.map_cons, List.sum_cons, ih]
+
+theorem nsum_map_add {α} (l : List α) (f g : α → Nat) :
+    (l.map fun a => f a + g a).sum = (l.map f).sum + (l.map g).sum := by
+  induction l with
+  | nil => simp
+  | cons a as ih => simp only [List.map_cons, List.sum_cons, ih]; omega
+
+theorem nsum_range_ite (n k c : Nat) (hk : k < n) :
+    ((List.range n).map fun ci => if k = ci then c else 0).sum = c := by
+  induction n with
+  | zero => omega
+  | succ n ih =>
+    rw [List.range_succ, List.map_append, List.sum_append]
+    by_cases h : k = n
+    · subst h
+      have : ((List.range k).map fun ci => if k = ci then c else 0) = (List.range k).map fun _ => (0 : Nat) := by
+        apply List.map_congr_left
+        intro ci hci
+        have := List.mem_range.mp hci
+        simp [show k ≠ ci by omega]
+      rw [this, nsum_map_zero]; simp
+    · rw [ih (by omega)]; simp [h]
+
+theorem nsum_by_key {α} (l : List α) (k : α → Nat) (n : Nat) (h : α → Nat) (hk : ∀ a ∈ l, k a < n) :
+    ((List.range n).map fun ci => ((l.filter fun a => k a == ci).map h).sum).sum = (l.map h).sum := by
+  induction l with
+  | nil => simp only [List.filter_nil, List.map_nil, List.sum_nil]; exact nsum_map_zero _
+  | cons a as ih =>
+    have e : (fun ci => (((a :: as).filter fun a' => k a' == ci).map h).sum) =
+        fun ci => (if k a = ci then h a else 0) + ((as.filter fun a' => k a' == ci).map h).sum := by
+      funext ci
+      by_cases hc : k a = ci
+      · simp [hc]
+      · simp [hc]
+    rw [e, nsum_map_add, nsum_range_ite n (k a) (h a) (hk a List.mem_cons_self),
+      ih (fun a' ha' => hk a' (List.mem_cons_of_mem _ ha'))]
+    simp
+
+/-- a dataset holds exactly `npoints` sample pairs (what `add_data` establishes: `add_data_holds`) -/
+def DataOk (d : Data) : Prop := d.x.length = d.npoints ∧ d.y.length = d.npoints
+
+theorem dataResidual_length (f : ModelFn) (p : List Rat) (d : Data) (h : DataOk d) :
+    (dataResidual f p d).length = d.npoints := by
+  unfold dataResidual
+  rw [List.length_zipWith, h.1, h.2, Nat.min_self]
+
+theorem length_residualOf_filterMap (f : ModelFn) (uniq : List String) (g : List Rat) (gs : List (List Data))
+    (hok : ∀ grp ∈ gs, ∀ d ∈ grp, DataOk d) :
+    (residualOf (gs.filterMap fun grp => match grp with
+      | [] => none
+      | r :: _ => some (mkCondition r.trans uniq, grp)) f g).length =
+      (gs.map fun grp => (grp.map (·.npoints)).sum).sum := by
+  induction gs with
+  | nil => simp [residualOf]
+  | cons grp gs ih =>
+    have ih' := ih (fun g' hg' => hok g' (List.mem_cons_of_mem _ hg'))
+    cases grp with
+    | nil =>
+      simp only [List.filterMap_cons, List.map_cons, List.sum_cons, List.map_nil, List.sum_nil, Nat.zero_add]
+      exact ih'
+    | cons r rest =>
+      simp only [List.filterMap_cons, List.map_cons, List.sum_cons]
+      unfold residualOf at ih' ⊢
+      rw [List.flatMap_cons, List.length_append, ih', List.length_flatMap]
+      congr 1
+      have : ∀ d ∈ r :: rest, (dataResidual f (getLocalParams (mkCondition r.trans uniq) g) d).length = d.npoints :=
+        fun d hd => dataResidual_length _ _ d (hok _ List.mem_cons_self d hd)
+      rw [List.map_congr_left this]
+      simp
+
 
 end Verif.C14
